@@ -94,7 +94,9 @@ pub enum TypedRes {
     /// the slice handed out has the wrong number of elements
     WrongLen { got: usize, want: usize },
     /// succeeded without handing out a block (allocate + dealloc)
-    Nothing,
+    /// a box of `bytes` bytes was allocated and handed straight back with `dealloc`; `inert_dealloc`: through a
+    /// `WithoutDealloc` wrapper, whose deallocate must do nothing
+    Nothing { bytes: usize, inert_dealloc: bool },
     Unsupported,
 }
 
